@@ -257,9 +257,23 @@ def finish(ctx, level, coverage, assumptions):
         f.write("\n")
     for k in ctx.known:
         print("KNOWN-FINDING: property=%s %s" % (ctx.prop, k))
+    # a broken proof obligation / correspondence for which this same run found a concrete failing
+    # input is reported with that input; only when the search found nothing does the line end with
+    # no-failing-input-found
+    found = [p for (_, p, ni) in ctx.violations if not ni]
     for (msg, path, no_input) in ctx.violations:
-        print("VIOLATION property=%s replay=%s %s%s" % (
-            ctx.prop, path, msg.split("\n")[0][:200], " no-failing-input-found" if no_input else ""))
+        tail = ""
+        if no_input and found:
+            with open(path, "a") as f:
+                f.write("\n# a concrete failing input was found by the same run: %s\n" % found[0])
+                try:
+                    f.write(open(found[0]).read())
+                except OSError:
+                    pass
+            tail = " failing-input=%s" % found[0]
+        elif no_input:
+            tail = " no-failing-input-found"
+        print("VIOLATION property=%s replay=%s %s%s" % (ctx.prop, path, msg.split("\n")[0][:200], tail))
     if ctx.violations:
         return 1
     print("OK property=%s tier=%s wall=%.1fs" % (ctx.prop, ctx.tier, time.time() - ctx.t0))
